@@ -256,10 +256,10 @@ func init() {
 	})
 	// C10 SyncWrites vs power loss
 	p10 := profT("R-C10")
-	p10.MinClients, p10.MaxClients, p10.MaxOps = 1, 3, 12
-	p10.WIter, p10.WGet = 1, 2
+	p10.MinClients, p10.MaxClients, p10.MaxOps = 1, 4, 14
+	p10.WIter, p10.WGet = 0, 1
 	p10.WSet, p10.WDel = 8, 3
-	p10.WCommitWith = 2
+	p10.WCommitWith = 6 // several requests in flight: batches of >1 request in writeRequests
 	p10.Groups = [][]string{nil}
 	p10.MaxDec = 60
 	register(&Scenario{Prop: "C10", Family: "R", Level: "fault_enumeration", Profile: p10,
@@ -289,9 +289,28 @@ func init() {
 	p32.MaxOps = 30
 	p32.MinClients, p32.MaxClients = 2, 5
 	p32.Groups = [][]string{nil, {"client", "txn", "doWrites", "writer", "publisher", "subscriber", "txncb"}}
+	p32gv := *p32
+	p32g := &p32gv
+	p32g.Name = "G-C32"
+	p32g.Compaction = true
+	p32g.WGC = 6
+	p32g.WDel = 3
+	p32g.MaxKeys = 8
+	p32g.Groups = [][]string{nil, {"client", "gc", "compactor", "flusher", "subcompact", "builder", "txn", "writer", "doWrites", "publisher", "subscriber"}}
 	register(&Scenario{Prop: "C32", Family: "T", Level: "exploration", Profile: p32, NonTrivialProbe: "subscriber_required_kvs",
-		Gen:  func(t *rapid.T) *Case { return GenCase(t, p32) },
-		Rule: "2-5 clients commit on <=8 nesting keys while some of them hold a subscription (1-2 patterns: a key or its 1-2 byte prefix, with ignored byte positions 0, 1 or 0-1); publisher and subscriber goroutines are scheduled; on unsubscribe the received KV sequence must contain every matching write of commits allocated after the registration event and acknowledged before the unsubscribe began, each exactly once, in commit-ts order, with key/value/version/expiry/user-meta as committed, and nothing for user keys that match no pattern. non-trivial = run in which a subscriber was owed >=1 KV",
+		Gen: func(t *rapid.T) *Case {
+			if rapid.IntRange(0, 2).Draw(t, "c32_gc_variant") != 0 {
+				return GenCase(t, p32)
+			}
+			// variant: value-log GC moves committed entries while subscribers listen
+			c := GenCase(t, p32g)
+			c.Cfg.ValueThreshold = int64(rapid.SampledFrom([]int{16, 32, 64}).Draw(t, "vt_gc"))
+			c.Cfg.VLogPercentile = 0
+			c.Cfg.ValueLogMaxEntries = uint32(rapid.SampledFrom([]int{3, 5, 10, 20}).Draw(t, "vlog_entries_gc"))
+			c.Cfg.PrefillVlog = true
+			return c
+		},
+		Rule: "2-5 clients commit on <=8 nesting keys while some of them hold a subscription (1-2 patterns: a key or its 1-2 byte prefix, with ignored byte positions 0, 1 or 0-1); publisher and subscriber goroutines are scheduled; on unsubscribe the received KV sequence must contain every matching write of commits allocated after the registration event and acknowledged before the unsubscribe began, each exactly once, in commit-ts order, with key/value/version/expiry/user-meta as committed, and nothing for user keys that match no pattern; one case in three runs on a pre-filled database with real compactors and RunValueLogGC calls moving committed entries while subscribers listen. non-trivial = run in which a subscriber was owed >=1 KV",
 	})
 	// C30 sequences
 	p30 := profT("T-C30")
